@@ -96,6 +96,11 @@ func (eng) Cases(seed uint64, tier string) []core.CaseDesc {
 		{Kind: "add", States: []string{"Start"}}, {Kind: "add", States: []string{c.Disconnecting}}, {Kind: "remove", States: []string{c.Disconnecting}},
 		{Kind: "add", States: []string{c.Disconnecting}}, {Kind: "remove", States: []string{c.Disconnecting}},
 	}}))
+	// directed: the forwarded Remove arrives while the target is inside the
+	// transition that activates the state (parked in its Enter handler)
+	cs = append(cs, mk("pipe/bind/mid-add", "pipe", seed, pipeP{Bind: "bind", Sched: "midadd", Script: []gen.Op{
+		{Kind: "add", States: []string{"A"}}, {Kind: "remove", States: []string{"A"}},
+	}}))
 	for _, b := range []string{"bind", "bindmany", "flat", "bindany"} {
 		for _, s := range []string{"natural", "overtake"} {
 			for r := 0; r < netReps; r++ {
@@ -360,6 +365,18 @@ func build(p pipeP) (*scen, error) {
 	s.target = am.New(ctx, dstSchema, &am.Opts{Id: "c18dst", DontLogId: true, DontLogStackTrace: true, Tracers: []am.Tracer{s.tt},
 		HandlerTimeout: 60 * time.Second, QueueLimit: 10000})
 	// the parking handler of the busy schedule
+	if p.Sched == "midadd" {
+		var once sync.Once
+		_, _ = s.target.HandlersBindMaps(map[string]am.HandlerNegotiation{
+			"TAEnter": func(e *am.Event) bool {
+				once.Do(func() {
+					close(s.parked)
+					<-s.release
+				})
+				return true
+			},
+		}, nil)
+	}
 	if p.Sched == "busy" {
 		_, _ = s.target.HandlersBindMaps(nil, map[string]am.HandlerFinal{
 			"HoldState": func(e *am.Event) {
@@ -380,7 +397,8 @@ func build(p pipeP) (*scen, error) {
 		s.rpc = pr
 		tapi = pr.C.NetMach
 	}
-	s.tapi = &proxy{Api: tapi, serial: !p.Net}
+	// (mid-add parks the target inside a forwarded call: the call log is only stamped there)
+	s.tapi = &proxy{Api: tapi, serial: !p.Net && p.Sched != "midadd"}
 	if p.Sched == "overtake" {
 		s.tapi.hold = overtake
 	}
@@ -552,6 +570,14 @@ func runPipe(res *core.CaseResult, c core.CaseDesc, p pipeP) {
 				}
 				time.Sleep(2 * time.Millisecond)
 			}
+			if p.Sched == "midadd" && i == 0 {
+				select {
+				case <-s.parked:
+				case <-time.After(10 * time.Second):
+					res.Inconclusive = "the target never parked in its Enter handler"
+					return
+				}
+			}
 		}
 		// ... nor breaks it: a pipe handler that blocks ends in a handler timeout
 		if p.Bind != "binderr" && s.source.IsErr() {
@@ -561,6 +587,17 @@ func runPipe(res *core.CaseResult, c core.CaseDesc, p pipeP) {
 		if r.IntN(4) == 0 {
 			time.Sleep(time.Duration(r.IntN(300)) * time.Microsecond)
 		}
+	}
+	if p.Sched == "midadd" {
+		// the forwarded Remove has been called (and returned) before the
+		// target's Add transition goes on
+		for k := 0; k < 1000; k++ {
+			if _, applied := s.tapi.counts(); applied >= s.expectedForwards()-1 {
+				break
+			}
+			time.Sleep(2 * time.Millisecond)
+		}
+		close(s.release)
 	}
 	if p.Sched == "busy" {
 		close(s.release)
